@@ -352,7 +352,11 @@ func c15(r *hx.Run) {
 			}
 		}
 		before := w.Farm.LogLen()
-		resA := w.Cl.Do(hx.Req{Method: c.Method, Addr: w.Addr, Host: "c15.example", URI: c.URI, Header: sent, Body: body})
+		chunked := len(body) > 0 && i%2 == 0
+		if chunked {
+			r.Add("chunked_request_bodies", 1)
+		}
+		resA := w.Cl.Do(hx.Req{Method: c.Method, Addr: w.Addr, Host: "c15.example", URI: c.URI, Header: sent, Body: body, Chunked: chunked})
 		fetches := w.Farm.LogSince(before)
 		r.Eval(1)
 		cs := map[string]interface{}{"case": c}
